@@ -3,7 +3,9 @@ package props
 import (
 	"fmt"
 	"os"
+	"regexp"
 	"sort"
+	"strconv"
 	"strings"
 	"time"
 
@@ -105,6 +107,30 @@ type C01Case struct {
 	// MayFail: the configuration holds times that a format's fields may be unable to hold - refusing to build is
 	// accepted; a package that is built is judged like any other
 	MayFail bool `json:"may_fail,omitempty"`
+	// Spell: how the numbers of the document (mode, umask) are written: "" = decimal, "0" = 0644, "0o" = 0o644,
+	// "0x" = 0x1a4, "0b" = 0b110100100
+	Spell string `json:"number_spelling,omitempty"`
+}
+
+var numLineRe = regexp.MustCompile(`(?m)^(\s*(?:mode|umask): )(\d+)$`)
+
+// respellNumbers rewrites the decimal mode / umask values of a rendered document in another notation of the same number.
+func respellNumbers(text, spell string) string {
+	return numLineRe.ReplaceAllStringFunc(text, func(l string) string {
+		m := numLineRe.FindStringSubmatch(l)
+		n, _ := strconv.Atoi(m[2])
+		switch spell {
+		case "0":
+			return m[1] + "0" + strconv.FormatInt(int64(n), 8)
+		case "0o":
+			return m[1] + "0o" + strconv.FormatInt(int64(n), 8)
+		case "0x":
+			return m[1] + "0x" + strconv.FormatInt(int64(n), 16)
+		case "0b":
+			return m[1] + "0b" + strconv.FormatInt(int64(n), 2)
+		}
+		return l
+	})
 }
 
 // c01Templates is the content-entry alphabet (simplest first). Σc′ = the first nQuick.
@@ -260,6 +286,23 @@ func init() {
 				}
 				if !yield(C01Case{Setting: s, List: fr}) {
 					return
+				}
+			}
+			// the notations a number may be written in (a mode is usually written 0644 or 0o644)
+			for _, sp := range []string{"0", "0o", "0x", "0b"} {
+				for _, sc := range []struct {
+					s Setting
+					l []model.Entry
+				}{
+					{sets[0], []model.Entry{{Src: "bin/app", Dst: "/usr/bin/app", Mode: 0o755}, {Src: "etc/app.conf", Dst: "/etc/app.conf", Type: "config", Mode: 0o640, Owner: "app"}}},
+					{sets[0], []model.Entry{{Src: "bin/app", Dst: "/usr/bin/suid", Mode: 0o4755}, {Dst: "/var/lib/app", Type: "dir", Mode: 0o2770}, {Dst: "/tmp/sticky", Type: "dir", Mode: 0o1777}}},
+					{sets[0], []model.Entry{{Src: "tree", Dst: "/opt/tree", Type: "tree", Mode: 0o750}, {Src: "etc/empty", Dst: "/etc/seven", Mode: 0o7}, {Src: "etc/empty", Dst: "/etc/eight", Mode: 0o10}}},
+					{Setting{Name: "umask=027", Umask: 0o027}, []model.Entry{{Src: "bin/app", Dst: "/usr/bin/app"}, {Src: "tree", Dst: "/opt/tree", Type: "tree"}}},
+					{Setting{Name: "umask=077", Umask: 0o077}, []model.Entry{{Src: "bin/app", Dst: "/usr/bin/app", Mode: 0o755}, {Src: "etc/", Dst: "/cfg"}}},
+				} {
+					if !yield(C01Case{Setting: sc.s, List: sc.l, Spell: sp}) {
+						return
+					}
 				}
 			}
 			// times outside the usual years - before the epoch, exactly the epoch, beyond 2^31 and beyond 2^32 seconds - on
@@ -510,6 +553,14 @@ func checkC01(env *engine.Env, ci any) engine.Outcome {
 		defer os.Chdir(old)
 	}
 	text := doc.YAML()
+	if c.Spell != "" {
+		respelt := respellNumbers(text, c.Spell)
+		if respelt == text {
+			out.HarnessError = "number spelling " + c.Spell + ": the document holds no mode or umask to respell:\n" + text
+			return out
+		}
+		text = respelt
+	}
 	formats := Formats
 	if c.Setting.Only != "" {
 		formats = []string{c.Setting.Only}
